@@ -28,7 +28,7 @@ def card3(jA=0, pA=-1, fin=((0, -1), (0, -1), (0, -1)), res=None, chains=("BC", 
     res = {**default_res, **(res or {})}
     other = {"BC": "D", "BD": "C", "CD": "B"}
     decay = {"A": []}
-    particle = {"$top": {"A": {"J": jA, "P": pA, "mass": M_TOP}}, "$finals": {}}
+    particle = {"$top": {"A": {"J": jA, "P": pA, "mass": masses.get("A", M_TOP)}}, "$finals": {}}
     if spins_top is not None:
         particle["$top"]["A"]["spins"] = list(spins_top)
     for n, (j, p) in zip("BCD", fin):
